@@ -158,7 +158,7 @@ def base_case(rng, start, ts, nd=None, form=None, ops=None, plan_len=None):
         "ops": ops or [],
         "prior": gen_prior(rng),
         "plan": gen_plan(rng, max(n, 1)),
-        "detector": rng.choice(["CCD", "CCD", "CMOS", "APD"]),
+        "detector": rng.choice(["CCD", "CCD", "CMOS", "APD", "MKID", "MKID"]),
     }
 
 
@@ -773,7 +773,7 @@ def gen_history(rng):
         sub["plan"] = gen_plan(rng, len(t_k), nonfinite=0.15)
         sub["prior"] = {"tokens": [], "earlier": None}
         subs.append(sub)
-    return {"history": subs, "prior": gen_prior(rng), "detector": rng.choice(["CCD", "CMOS", "APD"])}
+    return {"history": subs, "prior": gen_prior(rng), "detector": rng.choice(["CCD", "CMOS", "APD", "MKID"])}
 
 
 def build_cases(rng, tier):
@@ -862,6 +862,7 @@ def body(ck: common.Check):
         ck.count("outcome=" + (impl.get("error", "ok") + ("@" + impl["stage"] if "stage" in impl else "")))
         ck.count(f"steps={steps}")
         ck.count("nd" if case["nd"] else "destructive")
+        ck.count("detector=" + (whole[0] if whole else case).get("detector", "CCD"))
         if case["prior"]["earlier"]:
             ck.count("prior=earlier-run")
         if "kind" in case:
